@@ -187,6 +187,28 @@ PROPS["C16"] = A("TestSim_C16",
         "the content type oracle uses inputs whose type is unambiguous (magic numbers, plain ASCII), not a re-implementation of the sniffing algorithm",
         "CORS preflight (OPTIONS) handling and the S3 media handler are not exercised"])
 
+PROPS["C19"] = A("TestSim_C19",
+    "one evaluation = one simulated run of the 'tags and search' workload: 2-4 users (optionally one root) x 1-2 sessions with 1-2 groups, then 6-29 strictly sequential isolated requests drawn from: {set tags} on 'me' or an owned "
+    "group with 0-6 tags from a pool of plain, upper-case, padded, duplicated, too short, too long, badly starting tags and tags of the reserved (basic:, simcred:) and masked (rtg:) namespaces - alone, together with the "
+    "tags the target has on the Disk, or together with what {get tags} just reported, optionally leaving some out, or the clear marker; {get tags}; request, confirmation and deletion of a credential; login change; "
+    "creation of a group or of an account with such tags; suspension/un-suspension and soft/hard deletion of an account by root; deletion of a group; detaching from fnd or me; a 12 s wait that unloads idle topics; and searches: "
+    "a query of 1-5 terms (plain, login-like, credential-like, prefixed, masked, quoted with spaces or commas, empty quotes, illegal characters, non-ASCII) joined by spaces, tabs, commas with and without spaces, doubled commas, with "
+    "leading/trailing separators, or one of nine malformed shapes, set as fnd.public or fnd.private and executed with {get fnd sub}. One request in four of a faulty run has the k-th store call fail. After every request: every "
+    "stored tag list is trimmed, lower-case, duplicate-free, starts with a letter or digit, 2-96 runes per tag, at most max_tag_count tags, and equals its tag index; a request other than a credential or login request never "
+    "changes the reserved tags of any user, topics never carry reserved tags; fault-free, the reserved tags of a user are exactly basic:<login> plus simcred:<value> of the confirmed credentials; {get tags} reports the stored "
+    "tags; a refused tag update changes nothing. Every search is compared with an independent reading of the documented grammar (comma = OR, whitespace = AND, a term next to a comma is an OR term, quotes literal, "
+    "credential-like and - public queries - login-like terms also in their prefixed form): malformed (unterminated quote, doubled commas, quote glued to a word) and term-less queries are answered 400; a term of a masked namespace "
+    "that is not among the searcher's stored tags gives 403 and nothing else does; otherwise the (required, optional) lists handed to the store equal the reference's, activeOnly is set exactly for non-root searchers, and the users "
+    "and topics in the answer are exactly those the reference evaluation finds on the Disk (never the searcher, never a suspended or deleted account or topic for a non-root searcher). "
+    "Non-trivial = at least one refused tag update and one judged search; distinct = distinct (program hash, schedule hash).",
+    quick=(8, 150, 400), thorough=(16, 3000, 3000),
+    configs=[{}, {"masked_tags": ["rtg", "simcred"]}],
+    probes=["fault.store_err", "c19.search_judged", "c19.masked_term_denied", "c19.query_malformed", "c19.query_and_or", "c19.tag_update_refused", "c19.cred_confirmed", "c19.login_changed"],
+    assumptions=COMMON_ASSUME + ["the query parser, tag rewriting and tag normalisation are pure functions: they are exercised through the fnd and tag-update flows over a generated alphabet, not enumerated over all strings",
+        "'looks like a credential' is the stub validator's rule (contains @, at most 64 bytes); e-mail and phone validators (libphonenumber) are not loaded",
+        "the reference reader follows docs/API.md; for fnd.private the original term is accepted next to the rewritten one (the documentation says only the rewritten one is kept, the property does not)",
+        "result limits (max_results) are not reached"])
+
 PROPS["C17"] = A("TestSim_C17",
     "one evaluation = one simulated run of the cluster simulator: 3-5 real Cluster objects (failoverInit, run loop, electLeader, sendHealthChecks, Health, Vote, rehash, isPartitioned, reconnect; peers listed in a different "
     "order on every node; heartbeat 50-200 ms with the real jitter, vote_after 2-8, node_fail_after 2-6) over a simulated inter-node network, driven through 1-8 network phases of 0.1-6 s each drawn from: fully connected, "
@@ -235,7 +257,6 @@ NOT_APPLICABLE = {
            "For the remaining clause (parties that replay change notifications converge to the authoritative permissions) a tracker over the recorded frames of the 'perm' workload was built (harness/c05.go, TestSim_C05, "
            "not registered): it reports divergences on the unchanged tree, three of which were traced to recorded findings (see known-findings.txt, property C05) while others could not be triaged to the point where "
            "every alarm is known to be genuine; a check whose alarms are not all understood is not claimed",
-    "C19": "not claimed. Query parsing, tag rewriting and tag normalisation are pure functions of one input; the clauses about histories of tag updates and masked/reserved namespaces (DESIGN.md section 5, C19) were not built in the time available",
     "C20": "pure functions of one input (id codecs, name spellings, JSON<->protobuf converters): no schedule, clock, fault, crash point or second party for a simulator to decide; see DESIGN.md section 6",
 }
 
